@@ -19,6 +19,10 @@ AUDIT = [("H2V.Properties.C01", T_MAIN), ("H2V.Properties.C01_wire", T_WIRE), ("
 VO_TARGETS = ["Properties/C01.vo", "Properties/C12_seq.vo", "Properties/C10_sync.vo", "Properties/C01_wire.vo"]
 THEOREMS = T_MAIN + T_WIRE + T_C12_SEQ + T_C10_SYNC
 PARTIAL = [
+    "one frame is outside the content equation: when a request that still waits for a concurrency slot is reset, h2 keeps the HEADERS that "
+    "open the stream in front of the RST_STREAM (repair a052906); Model/DataPath.v drops the whole queue at LClear, so the emission of that "
+    "kept HEADERS frame is not compared by the lock-step (counted as kept-head-after-clear in the evidence; the C04 wire oracle and the "
+    "dispatch model cover it);",
     "proved, for ALL label sequences (submissions, scheduler choices, max_frame_len, stream capacity / window at every pop, flush "
     "completions, resets) on the content-level model Model/DataPath.v of prioritize.rs (queue_frame, send_data, the DATA split of "
     "pop_frame, in_flight_data_frame, reclaim_frame, clear_queue) and of the two DATA slots of framed_write.rs: per stream, atoms handed "
